@@ -107,6 +107,7 @@ func buildFamilies() []family {
 	if len(rep12) != 12 {
 		panic("rep12")
 	}
+	eqv := eqValues()
 	fams := []family{
 		{"un", len(un) * len(full), func(i int) kase {
 			x := mixRadix(i, len(full), len(un))
@@ -197,6 +198,10 @@ func buildFamilies() []family {
 		{"jmpoff", 16 * 9, func(i int) kase {
 			sc, what := jmpOffCase(i)
 			return kase{sc, "JMP|" + what, "jump offsets " + what}
+		}},
+		{"eq", len(eqv) * len(eqv) * 4, func(i int) kase {
+			sc, what := eqCase(i, eqv)
+			return kase{sc, what, what}
 		}},
 		{"slots", 4 * 4 * 5 * 8 * 8, func(i int) kase {
 			sc, what := slotCase(i)
